@@ -248,11 +248,19 @@ def build_beam(cfg, world, mid, plasma):
     beam.divergence_y = cfg["divy"]
     beam.length = cfg["length"]
     beam.integrator = NumericalIntegrator(step=cfg["integ"]["step"])
-    a = cfg["att"]
-    beam.attenuator = SingleRayAttenuator(step=a["step"], clamp_to_zero=a["clamp"], clamp_sigma=a["clamp_sigma"])
+    beam.attenuator = mk_attenuator(cfg["att"], beam)
     if cfg["models"]:
         beam.models = [mk_bmodel(m) for m in cfg["models"]]
     return beam
+
+
+def mk_attenuator(a, beam):
+    """The attenuator in one of its documented construction forms: bare, or with the beam / plasma / atomic_data keywords
+    (it is attached with `beam.attenuator = ...` in both cases)."""
+    if a.get("ctor") == "keywords":
+        return SingleRayAttenuator(step=a["step"], clamp_to_zero=a["clamp"], clamp_sigma=a["clamp_sigma"],
+                                   beam=beam, plasma=beam.plasma, atomic_data=beam.atomic_data)
+    return SingleRayAttenuator(step=a["step"], clamp_to_zero=a["clamp"], clamp_sigma=a["clamp_sigma"])
 
 
 def mk_profile(p):
@@ -619,7 +627,8 @@ def _resolve_cfg(cfg):
 
 
 def _att():
-    return st.fixed_dictionaries({"step": st.sampled_from([0.02, 0.05, 0.11]), "clamp": st.booleans(), "clamp_sigma": st.sampled_from([2.0, 3.5, 5.0])})
+    return st.fixed_dictionaries({"step": st.sampled_from([0.02, 0.05, 0.11]), "clamp": st.booleans(), "clamp_sigma": st.sampled_from([2.0, 3.5, 5.0]),
+                                  "ctor": st.sampled_from(["bare", "bare", "keywords"])})
 
 
 def _bmodel():
@@ -747,8 +756,8 @@ class BeamScene(SceneBase):
 
     def do_b_att_swap(self, a):
         self.rec["beam"]["att"] = a
-        self._b().attenuator = SingleRayAttenuator(step=a["step"], clamp_to_zero=a["clamp"], clamp_sigma=a["clamp_sigma"])
-        self._mut("b_att_swap")
+        self._b().attenuator = mk_attenuator(a, self._b())
+        self._mut("b_att_swap:" + a.get("ctor", "bare"))
 
     def pre_b_att_step(self):
         return not is_open("C01-beam-modified-cdef")
@@ -809,6 +818,23 @@ class BeamScene(SceneBase):
             setattr(b, attr, getattr(b, attr))
         self._mut("b_reassign:" + attr)
 
+    def do_b_att_calculate(self, a):
+        """the documented explicit trigger of the attenuation calculation (instead of the lazy one): changes nothing"""
+        try:
+            self._b().attenuator.calculate_attenuation()
+        except Exception as e:  # noqa: a detached beam / missing data: the observation that follows meets the same condition in both scenes
+            self.ctx.label("b_att_calculate:raised:" + type(e).__name__)
+        self._mut("b_att_calculate")
+
+    def do_b_refused(self, a):
+        """an assignment the setter refuses (ValueError) is not a change: the scene must go on behaving as configured, and
+        later valid changes must still get through"""
+        attr, bad = a
+        b = self._b()
+        obj = b.attenuator if attr in ("step", "clamp_sigma") else b
+        self.ctx.raises((ValueError,), "refused:beam." + attr, setattr, obj, attr, bad)
+        self._mut("b_refused:" + attr)
+
     def do_b_cx_line(self, li):
         for m, obj in zip(self.rec["beam"]["models"], list(self._b().models)):
             if m["kind"] == "cx":
@@ -839,6 +865,9 @@ class BeamScene(SceneBase):
         "b_models_clear": lambda: st.just(None),
         "b_reassign": lambda: st.sampled_from(["plasma", "atomic_data", "attenuator", "integrator", "element", "models", "model.line",
                                                "parent", "transform"]),
+        "b_att_calculate": lambda: st.just(None),
+        "b_refused": lambda: st.tuples(st.sampled_from(["step", "clamp_sigma", "energy", "power", "temperature", "sigma", "length",
+                                                         "divergence_x", "divergence_y"]), st.sampled_from([-0.5, -1.0, -3.0])),
         "b_cx_line": lambda: st.sampled_from([4, 5, 6, 6]),        # 4 and 6: two transitions of the same receiver ion
         "b_bes_line": lambda: st.sampled_from(["deuterium", "hydrogen"]),
     })
@@ -1051,8 +1080,8 @@ THEMES = {
     "provider": ("p_ad", "p_brems_gaunt", "p_models", "p_reassign", "p_comp_add", "b_ad", "b_cx_line", "b_bes_line", "b_models",
                  "b_reassign", "b_element", "b_plasma", "l_models", "l_plasma", "l_reassign", "l_spectrum_swap", "l_profile_swap"),
     "geometry": ("p_geom", "p_gt", "p_parent", "p_tf", "mid_tf", "p_integrator", "p_reassign", "b_tf", "b_parent", "b_length", "b_sigma",
-                 "b_div", "b_att", "b_integrator", "b_reassign", "l_tf", "l_parent", "l_profile_set", "l_integrator", "l_reassign"),
-    "profiles": ("p_b", "p_electrons", "p_comp", "p_ad", "b_energy", "b_power", "b_temperature", "b_att", "b_plasma", "l_polarization",
+                 "b_div", "b_att", "b_refused", "b_integrator", "b_reassign", "l_tf", "l_parent", "l_profile_set", "l_integrator", "l_reassign"),
+    "profiles": ("p_b", "p_electrons", "p_comp", "p_ad", "b_energy", "b_power", "b_temperature", "b_att", "b_refused", "b_plasma", "l_polarization",
                  "l_importance", "l_spectrum_set", "l_plasma"),
 }
 _theme = st.sampled_from([None, None, None, "provider", "geometry", "profiles"])
